@@ -16,6 +16,14 @@ Part B (input exploration with a thin spec): spec/WireLaws - framing of ReadMess
   interior zero / 0xff / invalid UTF-8, lengths 0,1,0xfc..0x100); WireLaws.ValueLaw (with the value domains
   stated in the spec) decides the round trip - deviation class `value-roundtrip`, key
   wire:value-roundtrip:<kind>:<type>:<Struct.Field>.
+  The plan has a record-level part for the TLV extension of every message type (operators rec-ins / rec-drop /
+  rec-len: one unknown record of every type class x value-length class - EMPTY included - at its canonical
+  position; presence/absence of the records present; the value of a present record resized with its length
+  prefix adjusted).  spec/WireLaws/WireExt.tla is the model of the extension handling (Put / Extract / Split /
+  Encode with the tlv.TypeMap explicit) that TLC checks for Partition / EmptyKept / Lossless; WireLaws.RecAccept
+  and RecPreserved bind the real codec to it - deviation classes ext-record-lost (key
+  wire:ext-record-lost:msg:<type>:<type classes>:<length classes>), ext-not-reproduced, ext-canonical-rejected;
+  any other law broken by a record-level case carries the operator: wire:<law>:msg:<type>:rec-len.
 """
 import concurrent.futures
 import copy
@@ -253,11 +261,103 @@ def part_tlv(ck):
 
 
 # ------------------------------------------------------------------------------------------ part B
+REC_TYPES = ["o9d", "ofb", "efc", "ofd", "efffe", "offff", "c10001", "s3b9aca01", "cffffffff", "c100000001"]
+REC_LENS = ["l0", "l1", "lfc", "lfd", "lff", "l100"]
+REC_TYPE_SETS = {"all-types": set(REC_TYPES), "unsigned-range": set(REC_TYPES) - {"o9d", "s3b9aca01"},
+                 "below-custom-range": set(REC_TYPES[:6]), "custom-range": set(REC_TYPES[6:])}
+
+
+def lost_signature(lost):
+    """Name of a set of (type class, length class) pairs: '<types>:<lengths>' if it is a product, else 'mixed'."""
+    ts, ls = {a for a, _ in lost}, {b for _, b in lost}
+    if lost != {(a, b) for a in ts for b in ls}:
+        return "mixed:" + "+".join(sorted("%s.%s" % x for x in lost))[:80]
+    tn = next((n for n, v in REC_TYPE_SETS.items() if v == ts), "+".join(x for x in REC_TYPES if x in ts))
+    ln = "all-lengths" if ls == set(REC_LENS) else "+".join(x for x in REC_LENS if x in ls)
+    return "%s:%s" % (tn, ln)
+
+
+def build_wire_control(ck, recs, flagged):
+    """Negative control (always): an accepted mutant whose re-encoding is claimed not to be a fixpoint must be
+    reported at exactly that line; likewise a value-boundary case (a field that reached the encoding and came back
+    equal) claimed to have come back different, and one claimed to have set another field than the one the
+    repetition selects; a record-level case whose inserted empty-valued record came back, claimed lost, and one
+    claimed to be of another type class than the plan cell says; and with the last plan line removed (the line
+    numbers of the others stay) the plan must be reported as not covered."""
+    def law(x):
+        return x["a"] == "Law" and x["na"] == 0 and x["pan"] == 0 and x["hang"] == 0
+    i = next((i for i, x in enumerate(recs) if law(x) and x["d1"] == 1 and x["op"] == "flip" and x["fix"] == 1
+              and (i + 1) not in flagged), None)
+    okval = [j for j, x in enumerate(recs) if law(x) and x["op"] in ("val-int", "val-bytes") and x["same"] == 1
+             and x["e0"] == 1 and x["chg"] == 1 and x["d1"] == 1 and x["veq"] == 1 and x["nf"] >= 2 and x["fix"] == 1
+             and (j + 1) not in flagged]
+    okrec = [j for j, x in enumerate(recs) if law(x) and x["op"] == "rec-ins" and x["d1"] == 1 and x["fix"] == 1
+             and x["rkept"] == 1 and x["same"] == 1 and x["lcls"] == "l0" and (j + 1) not in flagged]
+    if i is None or len(okval) < 2 or len(okrec) < 2:
+        raise Inconclusive("no case for the negative control (flip %s, value-boundary %d, record-level %d)" % (
+            i, len(okval), len(okrec)))
+    jv, jf = okval[0], okval[len(okval) // 2]
+    jr, jc = okrec[0], okrec[len(okrec) // 2]
+    last = max(j for j, x in enumerate(recs) if x["a"] == "Law")
+    if last in (i, jv, jf, jr, jc):
+        raise Inconclusive("negative control lines collide")
+    bad = list(recs)
+    for j in (i, jv, jf, jr, jc):
+        bad[j] = dict(recs[j])
+    bad[i]["fix"] = 0
+    bad[jv]["veq"] = 0
+    bad[jf]["fi"] = bad[jf]["fi"] % bad[jf]["nf"] + 1
+    bad[jr]["rkept"] = 0
+    bad[jc]["tcls"] = "efc" if bad[jc]["tcls"] != "efc" else "ofb"
+    del bad[last]
+    cp = os.path.join(ck.out, "wire_control.ndjson")
+    core.write_ndjson(cp, bad)
+    return dict(path=cp, i=i, jv=jv, jf=jf, jr=jr, jc=jc, bad=bad)
+
+
+def check_wire_control(ck, ctl, ok2, devs2):
+    i, jv, jf, jr, jc, bad = (ctl[k] for k in ("i", "jv", "jf", "jr", "jc", "bad"))
+    if ok2 or not any(d[0] == "fixpoint" and int(d[4]) == i + 1 for d in devs2):
+        raise Inconclusive("negative control accepted: WireLaws trace validation is not binding")
+    if not any(d[0] == "value-roundtrip" and int(d[4]) == jv + 1 for d in devs2):
+        raise Inconclusive("negative control accepted: the value-boundary law (ValueLaw) is not binding")
+    if not any(d[0] == "field-plan" and int(d[4]) == jf + 1 for d in devs2):
+        raise Inconclusive("negative control accepted: the field selection of the value-boundary plan is not binding")
+    if not any(d[0] == "ext-record-lost" and int(d[4]) == jr + 1 for d in devs2):
+        raise Inconclusive("negative control accepted: the record-level law (RecPreserved) is not binding")
+    if not any(d[0] == "field-plan" and int(d[4]) == jc + 1 for d in devs2):
+        raise Inconclusive("negative control accepted: the record class of a record-level case is not binding")
+    if not any(d[0] == "plan-not-covered" for d in devs2):
+        raise Inconclusive("negative control accepted: plan coverage is not binding")
+    ck.cov.setdefault("negative_controls", []).append(
+        dict(part="wirelaws", mutation="fix=0 on an accepted mutant (line %d); last plan line removed" % (i + 1),
+             rejected_by="fixpoint; plan-not-covered"))
+    ck.cov["negative_controls"].append(
+        dict(part="wirelaws record-level", mutation="rkept=0 on %s %s rec-ins %s (line %d); tcls changed on line %d" % (
+            bad[jr]["kind"], bad[jr]["t"], bad[jr]["pos"], jr + 1, jc + 1),
+             rejected_by="ext-record-lost; field-plan"))
+    ck.cov["negative_controls"].append(
+        dict(part="wirelaws value-boundary", mutation="veq=0 on %s %s %s=%s (line %d); fi changed on line %d" % (
+            bad[jv]["kind"], bad[jv]["t"], bad[jv]["fld"], bad[jv]["pos"], jv + 1, jf + 1),
+             rejected_by="value-roundtrip; field-plan"))
+
+
 def part_wire(ck):
     thorough = ck.tier == "thorough"
     reps = 120 if thorough else 24
+    rec_reps = 24 if thorough else 8     # record-level cells: the classes are fixed, a repetition varies the message
     r = ck.model_check(WL, "WireLawsMC", "WireLawsMC.cfg", "WireLaws plan + framing model", name="mc_wirelaws",
                        workers=2, timeout=600)
+    maxrecs = 3 if thorough else 2
+    if os.environ.get("VERIF_C10_SKIP_MC"):
+        maxrecs = 1
+    rx = ck.model_check(WL, "WireExt", "WireExtMC.cfg", "WireExt extension model (Put/Extract/Split/Encode), <=%d records "
+                        "over 12 type x 6 length classes, 3 paths" % maxrecs, constants={"MaxRecs": maxrecs},
+                        name="mc_wireext", workers=WORKERS, timeout=1200)
+    rv = ck.tlc(WL, "WireExt", "WireExtMC_reach.cfg", name="mc_wireext_reach", mode="mc", workers=2, timeout=600)
+    if rv.violation != "invariant ReachEmptyMix":
+        raise Inconclusive("WireExt does not reach typed + empty unknown + custom record (vacuous): %s" % (
+            rv.violation or rv.error))
     g = ck.tlc(WL, "WireLawsGen", "WireLawsGen.cfg", name="gen_plan", mode="mc", workers=1, timeout=600)
     if g.error or g.violation:
         raise Inconclusive("plan generation failed: %s\n%s" % (g.error or g.violation, g.out[-2000:]))
@@ -269,13 +369,21 @@ def part_wire(ck):
                                      wall_s=round(g.wall, 1)))
 
     res = ck.go_test("./lnwire/", "^TestVerifC10WireLaws$", ["lnwire/c10_test.go"],
-                     env={"VERIF_PLAN": plan, "VERIF_REPS": reps}, name="exec_lnwire", timeout=1500)
+                     env={"VERIF_PLAN": plan, "VERIF_REPS": reps, "VERIF_REC_REPS": rec_reps}, name="exec_lnwire", timeout=1500)
     trace = os.path.join(res["dir"], "trace.ndjson")
     if res["rc"] != 0 or not os.path.exists(trace):
         raise Inconclusive("lnwire executor failed:\n" + res["out"][-3000:])
-    ok, devs, _ = run_postcond(ck, WL, "WireLawsTrace", "WireLawsTrace.cfg", trace, "val_wirelaws",
-                            constants={"Reps": reps})
     recs = core.read_ndjson(trace)
+    # the validation of the trace and of its corrupted copy (negative control) run side by side; the control lines are
+    # picked among the cases whose recorded bits satisfy every law, and checked afterwards not to be lines the
+    # validator flagged (otherwise the control is rebuilt without them and run again)
+    cons = {"Reps": reps, "RecReps": rec_reps}
+    ctl = build_wire_control(ck, recs, set())
+    with concurrent.futures.ThreadPoolExecutor(max_workers=2) as ex:
+        f1 = ex.submit(run_postcond, ck, WL, "WireLawsTrace", "WireLawsTrace.cfg", trace, "val_wirelaws", cons)
+        f2 = ex.submit(run_postcond, ck, WL, "WireLawsTrace", "WireLawsTrace.cfg", ctl["path"], "control_wirelaws", cons)
+        ok, devs, _ = f1.result()
+        ok2, devs2, _ = f2.result()
     laws = [x for x in recs if x["a"] == "Law"]
     execd = [x for x in laws if x["na"] == 0]
     acc = [x for x in execd if x["d1"] == 1]
@@ -294,7 +402,24 @@ def part_wire(ck):
         distinct_fields={k: len({(x["t"], x["path"]) for x in vals if x["kind"] == k}) for k in ("msg", "fail", "pkt")},
         distinct_field_class_pairs=len({(x["kind"], x["t"], x["path"], x["pos"]) for x in vals}),
         struct_fields=len({x["fld"] for x in vals}))
-    wl = dict(plan_cells=len(cells), repetitions=reps, cases_executed=len(execd), not_applicable=len(laws) - len(execd),
+    rl = [x for x in execd if x["op"].startswith("rec-")]
+    rins = [x for x in rl if x["op"] == "rec-ins"]
+    record_part = dict(
+        model=dict(module="WireExt", MaxRecs=maxrecs, states=rx.distinct, wall_s=round(rx.wall, 1)),
+        plan_cells=len([c for c in cells if c["op"].startswith("rec-")]),
+        cases_executed=len(rl),
+        not_applicable=len([x for x in laws if x["op"].startswith("rec-") and x["na"] == 1]),
+        types_with_extension=len({(x["kind"], x["t"]) for x in rl}),
+        rec_ins=dict(executed=len(rins), accepted=len([x for x in rins if x["d1"] == 1]),
+                     record_kept_and_byte_identical=len([x for x in rins if x["rkept"] == 1 and x["same"] == 1]),
+                     empty_value_cases_kept=len([x for x in rins if x["lcls"] == "l0" and x["rkept"] == 1]),
+                     distinct_type_x_length_classes=len({(x["tcls"], x["lcls"]) for x in rins})),
+        rec_drop=dict(executed=len([x for x in rl if x["op"] == "rec-drop"]),
+                      accepted=len([x for x in rl if x["op"] == "rec-drop" and x["d1"] == 1])),
+        rec_len=dict(executed=len([x for x in rl if x["op"] == "rec-len"]),
+                     accepted=len([x for x in rl if x["op"] == "rec-len" and x["d1"] == 1]),
+                     distinct_record_types_resized=len({(x["t"], x["rt"]) for x in rl if x["op"] == "rec-len"})))
+    wl = dict(plan_cells=len(cells), repetitions=reps, record_level_repetitions=rec_reps, record_level=record_part, cases_executed=len(execd), not_applicable=len(laws) - len(execd),
               value_boundary=value_part,
               accepted=len(acc), rejected=len(execd) - len(acc),
               accepted_mutants=len([x for x in acc if x["op"] not in ("valid", "ext-odd")]),
@@ -306,7 +431,8 @@ def part_wire(ck):
     ck.cov["wirelaws"] = wl
     for x in (next((x for x in acc if x["op"] == "flip"), None), next((x for x in execd if x["op"] == "len+1"), None),
               next((x for x in vchg if x["op"] == "val-int" and x["pos"] == "i10000"), None),
-              next((x for x in vchg if x["op"] == "val-bytes" and x["pos"] == "bz"), None)):
+              next((x for x in vchg if x["op"] == "val-bytes" and x["pos"] == "bz"), None),
+              next((x for x in rins if x["lcls"] == "l0" and x["rkept"] == 1 and x["tcls"] == "ofd"), None)):
         if x:
             ck.cov["samples"].append({"law": x})
 
@@ -316,11 +442,22 @@ def part_wire(ck):
     for d in devs:
         if d[0] == "value-roundtrip" and int(d[4]) - 1 < len(recs):
             vr_fields.setdefault((d[1], d[2]), set()).add(recs[int(d[4]) - 1].get("fld"))
+    # an unknown record lost by the codec is named by WHICH records a message type loses (a product of type classes
+    # and value-length classes of the rec-ins cells that were accepted): the names only describe the recorded set
+    lost_sig = {}
+    for t in {d[2] for d in devs if d[0] == "ext-record-lost"}:
+        lines = {int(d[4]) for d in devs if d[0] == "ext-record-lost" and d[2] == t}
+        lost = {(recs[i - 1]["tcls"], recs[i - 1]["lcls"]) for i in lines if i - 1 < len(recs)}
+        lost_sig[t] = lost_signature(lost)
     classes = {}
     for d in devs:
         what, kind, t, op, line = d[0], d[1], d[2], d[3], int(d[4])
         key = "wire:%s:%s:%s" % (what, kind, t) if kind in ("msg", "fail", "pkt") and what not in (
             "dispatch", "range-gap", "dispatch-type") else "wire:%s:%s:%s:%s" % (what, kind, t, op)
+        if what == "ext-record-lost":
+            key = "wire:ext-record-lost:%s:%s:%s" % (kind, t, lost_sig.get(t, "?"))
+        elif str(op).startswith("rec-") and what not in ("ext-not-reproduced", "ext-canonical-rejected"):
+            key = "wire:%s:%s:%s:%s" % (what, kind, t, op)
         if what == "value-roundtrip" and line - 1 < len(recs):
             # the value-boundary part names the field: wire:value-roundtrip:fail:16406:InvalidOnionPayload.Type
             key = "wire:value-roundtrip:%s:%s:%s" % (kind, t, recs[line - 1].get("fld") or op)
@@ -342,46 +479,11 @@ def part_wire(ck):
                               kind, t, rec.get("op"), rec.get("pos"), rec.get("rep")),
                      files={"trace.ndjson": one})
 
-    # negative controls (always): an accepted mutant whose re-encoding is claimed not to be a fixpoint must be
-    # reported at exactly that line; likewise a value-boundary case (a field that reached the encoding and came
-    # back equal) claimed to have come back different, and one claimed to have set another field than the one the
-    # repetition selects; and with one plan line removed the plan must be reported as not covered
     flagged = {int(d[4]) for d in devs}
-    bad = copy.deepcopy(recs)
-    i = next(i for i, x in enumerate(bad) if x["a"] == "Law" and x["na"] == 0 and x["d1"] == 1 and x["op"] == "flip"
-             and (i + 1) not in flagged)
-    bad[i]["fix"] = 0
-    okval = [j for j, x in enumerate(bad) if x["a"] == "Law" and x["na"] == 0 and x["op"] in ("val-int", "val-bytes")
-             and x["e0"] == 1 and x["chg"] == 1 and x["d1"] == 1 and x["veq"] == 1 and x["nf"] >= 2
-             and (j + 1) not in flagged]
-    if len(okval) < 2:
-        raise Inconclusive("no value-boundary case for the negative control")
-    jv, jf = okval[0], okval[len(okval) // 2]
-    bad[jv]["veq"] = 0
-    bad[jf]["fi"] = bad[jf]["fi"] % bad[jf]["nf"] + 1
-    cp = os.path.join(ck.out, "wire_control.ndjson")
-    core.write_ndjson(cp, bad)
-    ok2, devs2, _ = run_postcond(ck, WL, "WireLawsTrace", "WireLawsTrace.cfg", cp, "control_wirelaws",
-                                 constants={"Reps": reps})
-    if ok2 or not any(d[0] == "fixpoint" and int(d[4]) == i + 1 for d in devs2):
-        raise Inconclusive("negative control accepted: WireLaws trace validation is not binding")
-    if not any(d[0] == "value-roundtrip" and int(d[4]) == jv + 1 for d in devs2):
-        raise Inconclusive("negative control accepted: the value-boundary law (ValueLaw) is not binding")
-    if not any(d[0] == "field-plan" and int(d[4]) == jf + 1 for d in devs2):
-        raise Inconclusive("negative control accepted: the field selection of the value-boundary plan is not binding")
-    cp2 = os.path.join(ck.out, "wire_control2.ndjson")
-    core.write_ndjson(cp2, recs[:i] + recs[i + 1:])
-    ok3, devs3, _ = run_postcond(ck, WL, "WireLawsTrace", "WireLawsTrace.cfg", cp2, "control_wirelaws2",
-                                 constants={"Reps": reps})
-    if ok3 or not any(d[0] == "plan-not-covered" for d in devs3):
-        raise Inconclusive("negative control accepted: plan coverage is not binding")
-    ck.cov.setdefault("negative_controls", []).append(
-        dict(part="wirelaws", mutation="fix=0 on an accepted mutant (line %d); one plan line removed" % (i + 1),
-             rejected_by="fixpoint; plan-not-covered"))
-    ck.cov["negative_controls"].append(
-        dict(part="wirelaws value-boundary", mutation="veq=0 on %s %s %s=%s (line %d); fi changed on line %d" % (
-            bad[jv]["kind"], bad[jv]["t"], bad[jv]["fld"], bad[jv]["pos"], jv + 1, jf + 1),
-             rejected_by="value-roundtrip; field-plan"))
+    if flagged & {ctl[k] + 1 for k in ("i", "jv", "jf", "jr", "jc")}:
+        ctl = build_wire_control(ck, recs, flagged)
+        ok2, devs2, _ = run_postcond(ck, WL, "WireLawsTrace", "WireLawsTrace.cfg", ctl["path"], "control_wirelaws", cons)
+    check_wire_control(ck, ctl, ok2, devs2)
     return wl
 
 
@@ -408,14 +510,24 @@ def run(ck):
         "see coverage.wirelaws. The value-boundary part of the plan (coverage.wirelaws.value_boundary) sets every "
         "scalar / fixed-size / length-prefixed field of every generated message and failure value to the boundary "
         "classes of its encoding and judges `decodes back to an equal value, byte-identically` with the value "
-        "domains stated in the spec (InDomain). Nothing is claimed about field-by-field correctness of a layout "
-        "beyond these laws.")
+        "domains stated in the spec (InDomain). The record-level part (coverage.wirelaws.record_level) concerns the TLV "
+        "extension every message type carries after its fixed layout: spec/WireLaws/WireExt.tla models its handling "
+        "(Put / Extract into the tlv.TypeMap with nil = parsed typed record / Split into typed, custom and extra "
+        "records / Encode by merge and sort) and TLC checks Partition, EmptyKept (an unknown record with an EMPTY value "
+        "is a record) and Lossless for all canonical streams of the stated size; the plan cells rec-ins (one unknown "
+        "record of each of 10 type classes x 6 value-length classes at its canonical position in the extension of a "
+        "generated encoding), rec-drop (a present record or all removed) and rec-len (the value of a present record "
+        "emptied / resized by one byte or one 8-byte element / doubled, length prefix adjusted) run on every message "
+        "type; RecAccept / RecPreserved decide rec-ins from the recorded bits (accepted, record found in the "
+        "extension of the re-encoding, re-encoding byte-identical), rec-drop and rec-len are judged by totality, bound "
+        "and the fixpoint law. Nothing is claimed about field-by-field correctness of a layout beyond these laws.")
     ck.cov["rule"] = (
         "tlv: evaluations = entry-point calls on enumerated inputs (all byte strings <= L over the alphabet + every "
         "leaf of the TLC token tree); distinct_nontrivial = distinct non-empty inputs accepted by at least one entry "
         "point. wirelaws: evaluations = executed plan cases + 2*65536 dispatch probes + write-bound probes; "
         "distinct_nontrivial = distinct mutated inputs (hash of the bytes; a value-boundary case counts by the hash "
-        "of the encoding of the value with the field set), valid encodings not counted")
+        "of the encoding of the value with the field set; a record-level case by the hash of fixed part + new "
+        "extension), valid encodings not counted")
     ck.cov["trusted_base"] = [
         "TLC 1.8.0 + CommunityModules (Json, CSV)",
         "executor projections: error identity -> class, known-record values, TypeMap keys, bytes.Equal, "
@@ -437,4 +549,12 @@ def run(ck):
         "first two elements); one field per case, the other fields keep the generated values; a field whose boundary "
         "value does not change the encoding is not judged for value equality (not on the wire in that value); the "
         "value domains (3-byte short_channel_id parts, 2-byte output index, encoding type, DNS port, message_flags, "
-        "musig2 nonces, alias text, script / alias lengths) are the named exceptions of WireLaws.InDomain"]
+        "musig2 nonces, alias text, script / alias lengths) are the named exceptions of WireLaws.InDomain",
+        "record-level part: the extension of an encoding is what the decoder hands to ExtraOpaqueData.Decode (or, for a "
+        "pure-TLV message, to the tlv stream decoder) - found by watching the reads of one decode of the valid encoding; "
+        "the 10 unknown record types (157, 251, 252, 253, 65534, 65535, 65537, 1000000001, 2^32-1, 2^32+1) are not typed "
+        "records of any lnd message; one inserted record per case (WireExt checks streams of up to MaxRecs records on "
+        "the model only); record values are a fixed byte pattern; messages without extension are WireLaws.NoExtTypes "
+        "(warning, error, ping, pong, onion_message); failure messages are not part of the record-level plan; the "
+        "rec-drop / rec-len cases are only judged by totality, bound and fixpoint (an accepted message with a record "
+        "missing or resized need not reproduce the input byte for byte)"]
